@@ -6,6 +6,7 @@
   (`Seq.rd`, `Seq.rd16`: header fields and pointer slots) and `Spec/RiffTree` (`walkTop`).
 -/
 import Ctrmml.Proofs.MdsFile
+import Ctrmml.Proofs.MdsTop
 import Ctrmml.Properties.C13
 import Ctrmml.Spec.MdsResolve
 namespace Ctrmml.MdsFile
@@ -303,6 +304,212 @@ theorem C09_ids_injective_partial (c : Conv) (hu : UsedOk c.usedData)
 
 example : UsedOk ({ usedData := [(1, 0), (65538, 1), (3, 2)] } : Conv).usedData := by unfold UsedOk; decide
 
+/-- `ids_injective`: no two `dblk` entries of an export share a slot id.  (`PlatformClean`: no
+platform `cmd` injects a raw index-bearing opcode.) -/
+theorem C09_ids_injective {song : Song} {d : DataInfo} (hpc : PlatformClean d) {vol : Option String} {b : Built}
+    (h : construct song d vol = .ok b) :
+    ((usedSorted b.conv).map fun p => entryId b.conv.subList.length b.conv.macroList.length p.1 p.2 % 2147483648).Nodup := by
+  obtain ⟨hinv, _, hasm⟩ := construct_inv hpc h
+  obtain ⟨_, _, _, _, _, _, hsz, _⟩ := assemble_ok hasm
+  exact C09_ids_injective_partial b.conv hinv.maps.used (by unfold hdrSize at hsz; omega)
+
+/-- the track-list facts: the track table lists exactly the song's channel tracks (ids below 16),
+in ascending order when the song's track map is (as a `std::map` is), and there are at most 16 -/
+theorem C09_tracks_exact {song : Song} {d : DataInfo} {vol : Option String} {b : Built}
+    (h : construct song d vol = .ok b) :
+    b.trackList.map (·.1) = channelIds song ∧ (∀ id ∈ channelIds song, id < 16 ∧ id ∈ song.tracks.map (·.1)) ∧
+    ((song.tracks.map (·.1)).Pairwise (· < ·) → (channelIds song).Pairwise (· < ·) ∧ b.trackList.length ≤ 16) := by
+  have hids := construct_ids h
+  refine ⟨hids, ?_, ?_⟩
+  · intro id hid
+    unfold channelIds at hid
+    have := List.mem_filter.mp hid
+    exact ⟨by simpa using this.2, this.1⟩
+  · intro hs
+    have hp : (channelIds song).Pairwise (· < ·) := List.Pairwise.filter _ hs
+    refine ⟨hp, ?_⟩
+    have hl : b.trackList.length = (channelIds song).length := by rw [← hids]; simp
+    rw [hl]
+    rcases sorted_length_le (channelIds song) 0 16 hp (by
+      intro x hx
+      unfold channelIds at hx
+      have := (List.mem_filter.mp hx).2
+      exact ⟨Nat.zero_le _, by simpa using this⟩) with h' | h'
+    · omega
+    · rw [h']; simp
+
+/-- `index_resolves`: in every event list the converter emits (channel tracks, subroutines, macro
+tracks) every index-bearing event refers to a key that is present in its map, and the index leads,
+through the pointer table of the exported `seq `, to the bytes of exactly the list registered under
+that key — which is what the writer makes of the track the key names (`SubNamed` / `MacNamed`).
+Data indices refer to a key of `used_data_map` (the `dblk` side is `C09_data_resolves`). -/
+theorem C09_index_resolves {song : Song} {d : DataInfo} (hpc : PlatformClean d) {vol : Option String} {b : Built}
+    (h : construct song d vol = .ok b) :
+    ∀ l ∈ b.trackList.map (·.2) ++ b.conv.subList ++ b.conv.macroList, ∀ ev ∈ l,
+      (ev.type = mds_PAT → ∃ key evs stream off rest,
+        (key, ev.arg) ∈ b.conv.subMap ∧ b.conv.subList[ev.arg]? = some evs ∧ SubNamed song d key evs ∧
+        convertTrackChk b.conv.subList.length b.conv.macroList.length evs = .ok stream ∧
+        Seq.rd16 b.seq (4 + 4 * b.trackList.length + 2 * ev.arg) = some off ∧
+        b.seq.drop (4 + 4 * b.trackList.length + off) = stream ++ rest) ∧
+      (ev.type = mds_INS ∨ ev.type = mds_PCM → ∃ mapped, (mapped, ev.arg) ∈ b.conv.usedData ∧
+        Seq.rd16 b.seq (4 + 4 * b.trackList.length + 2 * (b.conv.subList.length + b.conv.macroList.length + ev.arg)) = some 0) ∧
+      (ev.type = mds_PEG → ev.arg ≠ 0 → ∃ mapped, (mapped, ev.arg - 1) ∈ b.conv.usedData ∧
+        Seq.rd16 b.seq (4 + 4 * b.trackList.length + 2 * (b.conv.subList.length + b.conv.macroList.length + (ev.arg - 1))) = some 0) ∧
+      (ev.type = mds_MTAB → ev.arg ≠ 0 → ∃ key evs stream off rest,
+        (key, ev.arg - 1) ∈ b.conv.macroMap ∧ b.conv.macroList[ev.arg - 1]? = some evs ∧ MacNamed song d key evs ∧
+        convertMacroTrack evs = .ok stream ∧
+        Seq.rd16 b.seq (4 + 4 * b.trackList.length + 2 * (b.conv.subList.length + (ev.arg - 1))) = some off ∧
+        b.seq.drop (4 + 4 * b.trackList.length + off) = stream ++ rest) := by
+  obtain ⟨hinv, _, hasm⟩ := construct_inv hpc h
+  obtain ⟨_, hfirst, hsub, hmac, hdat⟩ := C09_slot_count hasm
+  intro l hl ev hev
+  have hall : AllEv b.conv (b.trackList.map (·.2)) ev := by
+    rcases List.mem_append.mp hl with hl | hl
+    · rcases List.mem_append.mp hl with hl | hl
+      · exact Or.inr (Or.inr ⟨l, hl, hev⟩)
+      · exact Or.inl ⟨l, hl, hev⟩
+    · exact Or.inr (Or.inl ⟨l, hl, hev⟩)
+  have hsc := hinv.scopedEv ev hall
+  refine ⟨?_, ?_, ?_, ?_⟩
+  · intro ht
+    have hk := hsc.1 ht
+    obtain ⟨key, hkey⟩ := exists_key_of_lt hinv.maps.sub (by rw [hinv.maps.subLen]; exact hk)
+    obtain ⟨evs, he, hnm⟩ := hinv.namedS _ hkey (by simp [Pend.hs])
+    obtain ⟨off, stream, rest, h1, h2, h3⟩ := hsub ev.arg hk
+    have : evs = b.conv.subList[ev.arg] := by
+      rw [List.getElem?_eq_getElem hk] at he; exact (Option.some.inj he).symm
+    subst this
+    exact ⟨key, _, stream, off, rest, hkey, he, hnm, h2, h1, h3⟩
+  · intro ht
+    have hk := hsc.2.1 ht
+    obtain ⟨mapped, hkey⟩ := exists_key_of_lt hinv.maps.used hk
+    exact ⟨mapped, hkey, hdat _ (by omega) (by omega)⟩
+  · intro ht hne
+    have hk := hsc.2.2.1 ht
+    obtain ⟨mapped, hkey⟩ := exists_key_of_lt hinv.maps.used (k := ev.arg - 1) (by omega)
+    exact ⟨mapped, hkey, hdat _ (by omega) (by omega)⟩
+  · intro ht hne
+    have hk := hsc.2.2.2 ht
+    have hk' : ev.arg - 1 < b.conv.macroList.length := by omega
+    obtain ⟨key, hkey⟩ := exists_key_of_lt hinv.maps.mac (by rw [hinv.maps.macLen]; exact hk')
+    obtain ⟨evs, he, hnm⟩ := hinv.namedM _ hkey (by simp [Pend.hm])
+    obtain ⟨off, stream, rest, h1, h2, h3⟩ := hmac (ev.arg - 1) hk'
+    have : evs = b.conv.macroList[ev.arg - 1] := by
+      rw [List.getElem?_eq_getElem hk'] at he; exact (Option.some.inj he).symm
+    subst this
+    exact ⟨key, _, stream, off, rest, hkey, he, hnm, h2, h1, h3⟩
+
+/-- the `dblk` side of `index_resolves`: every key of `used_data_map` has its entry in the list —
+chunk `glob`/`pcmh`, payload = 32-bit id (slot index, bit 31 for an extended envelope) followed by
+the data-bank item the key names; by `C09_ids_injective` it is the only entry with that id -/
+theorem C09_data_resolves {b : Built} {bank : List (List Nat)} {group pcm f : Bytes}
+    (h : getMds b bank group pcm = .ok f) :
+    ∃ ts : List Riff.Tree, Riff.serialize (mdsTree (toU8 b.seq) group pcm ts) = .ok f ∧
+      ∀ p ∈ b.conv.usedData, ∃ dat, bank[p.1 % (mdsFile_bankMask + 1)]? = some dat ∧
+        Riff.Tree.chunk (if p.1 < mdsFile_pcmTag then mdsFile_glob else mdsFile_pcmh)
+          (le32 (entryId b.conv.subList.length b.conv.macroList.length p.1 p.2) ++ toU8 dat) ∈ ts := by
+  obtain ⟨ts, hts, _, _, hser⟩ := getMds_serialize h
+  refine ⟨ts, hser, ?_⟩
+  intro p hp
+  have hp' : p ∈ usedSorted b.conv := (List.mergeSort_perm _ _).mem_iff.mpr hp
+  exact entryTrees_mem _ _ _ _ _ hts p hp'
+
+/-- `nothing_unused`: every subroutine, macro track and data item of an export is the target of an
+index-bearing event in an emitted event list (`AllEv`: channel tracks, subroutines, macro tracks):
+a `PAT k` (drum routine: the note / DMFINISH event carrying `k`), an `MTAB k+1`, an `INS`/`PCM i`
+or a `PEG i+1`. -/
+theorem C09_nothing_unused {song : Song} {d : DataInfo} (hpc : PlatformClean d) {vol : Option String} {b : Built}
+    (h : construct song d vol = .ok b) :
+    (∀ k, k < b.conv.subList.length → ∃ key ev, (key, k) ∈ b.conv.subMap ∧ AllEv b.conv (b.trackList.map (·.2)) ev ∧
+      ((key % 4 < 2 ∧ ev.type = mds_PAT ∧ ev.arg = k) ∨ (2 ≤ key % 4 ∧ DrumRef ev k))) ∧
+    (∀ k, k < b.conv.macroList.length → ∃ ev, AllEv b.conv (b.trackList.map (·.2)) ev ∧ ev.type = mds_MTAB ∧ ev.arg = k + 1) ∧
+    (∀ i, i < b.conv.usedData.length → ∃ ev, AllEv b.conv (b.trackList.map (·.2)) ev ∧
+      (((ev.type = mds_INS ∨ ev.type = mds_PCM) ∧ ev.arg = i) ∨ (ev.type = mds_PEG ∧ ev.arg = i + 1))) := by
+  obtain ⟨hinv, _, hasm⟩ := construct_inv hpc h
+  obtain ⟨_, _, _, _, _, _, hsz, _⟩ := assemble_ok hasm
+  unfold hdrSize at hsz
+  refine ⟨?_, ?_, ?_⟩
+  · intro k hk
+    obtain ⟨key, hm, ev, he, hr⟩ := hinv.covSub k hk (by simp [Pend.xs])
+    refine ⟨key, ev, hm, he, ?_⟩
+    rcases hr with ⟨h1, h2, h3⟩ | hr
+    · left; refine ⟨h1, h2, ?_⟩
+      rw [h3, u16_nat]; omega
+    · exact Or.inr hr
+  · intro k hk
+    obtain ⟨ev, he, ht, ha⟩ := hinv.covMac k hk (by simp [Pend.xm])
+    refine ⟨ev, he, ht, ?_⟩
+    rw [ha, u16_succ]; omega
+  · intro i hi
+    obtain ⟨ev, he, hr⟩ := hinv.covData i hi
+    refine ⟨ev, he, ?_⟩
+    rcases hr with ⟨h1, h2⟩ | ⟨h1, h2⟩
+    · left; refine ⟨h1, ?_⟩; rw [h2, u16_nat]; omega
+    · right; refine ⟨h1, ?_⟩; rw [h2, u16_succ]; omega
+
+/-- `index_resolves`, per event: whatever index-bearing event a hook call pushes carries the index
+that the conversion state registers under the key of the id THIS song event names — the
+subroutine key (track, drum flags) of a `JUMP`, the data-bank index of the `INS` instrument
+(tagged for PCM) or of the `PITCH_ENVELOPE` (tagged when extended), the macro track of a
+`PAN_ENVELOPE`.  (Maps only grow — `SubMono`, `getEnvelope` appends — so the key keeps that index
+to the end of the conversion.) -/
+theorem C09_event_names {song : Song} {d : DataInfo} (hpc : PlatformClean d) {n : Nat} {c c' : Conv} {w w' : WState}
+    {it : Player.TraceItem} {L : List (List MEv)} {P : Pend} (hinv : Inv song d c (w.out :: L) P)
+    (h : hook song d (n + 1) c w it = .ok (c', w')) :
+    ∃ new, w'.out = w.out ++ new ∧ ∀ ev ∈ new, EventNames d it w c' ev := by
+  have ih := writerInv (song := song) hpc n
+  cases hook_step hpc h with
+  | plain w' evs hout hpl => exact ⟨evs, hout, fun ev he => eventNames_of_plain (hpl ev he)⟩
+  | drum c' id w' pre ev _ _ _ hout hpre _ hplain =>
+    exact ⟨pre ++ [ev], by rw [hout, List.append_assoc], eventNames_append hpre (eventNames_of_plain hplain)⟩
+  | jump c' id w' pre ht hg hout hpre =>
+    obtain ⟨k, rfl, _, hmem, _, _⟩ := ih.sub c _ _ _ c' id (w.out :: L) P hinv hg
+    refine ⟨pre ++ [⟨mds_PAT, u16 (k : Int)⟩], by rw [hout, List.append_assoc], eventNames_append hpre ?_⟩
+    refine ⟨fun _ => ⟨ht, k, rfl, hmem⟩, fun t => ?_, fun t => ?_, fun t => ?_⟩
+    · rcases t with t | t
+      · exact absurd (show mds_PAT = mds_INS from t) (by decide)
+      · exact absurd (show mds_PAT = mds_PCM from t) (by decide)
+    · exact absurd (show mds_PAT = mds_PEG from t) (by decide)
+    · exact absurd (show mds_PAT = mds_MTAB from t) (by decide)
+  | data key ty arg w' pre hf hout hpre hprov =>
+    have hmemU := (getEnvelope_spec c key hinv.maps).2.2.2.2.2.2.2
+    refine ⟨pre ++ [⟨ty, arg⟩], by rw [hout, List.append_assoc], eventNames_append hpre ?_⟩
+    rcases hprov with ⟨hti, idx, tyI, he, _, hk⟩ | ⟨htp, hne, idx, hl, hkey, hty⟩
+    · -- an instrument
+      have hty : ty = mds_INS ∨ ty = mds_PCM := by rcases hk with ⟨_, _, h⟩ | ⟨_, _, h⟩; exact Or.inl h; exact Or.inr h
+      have harg : arg = u16 ((getEnvelope c key).2 : Int) := by
+        rcases hf with ⟨_, ha⟩ | ⟨hp, _⟩
+        · exact ha
+        · rcases hty with h | h <;> (rw [h] at hp; exact absurd hp (by decide))
+      refine ⟨fun t => ?_, fun _ => ⟨hti, idx, (getEnvelope c key).2, he, harg, ?_⟩, fun t => ?_, fun t => ?_⟩
+      · rcases hty with h | h <;> (rw [show ty = mds_PAT from t] at h; exact absurd h (by decide))
+      · rcases hk with ⟨_, hkk, h⟩ | ⟨_, hkk, h⟩
+        · left; exact ⟨h, by rw [← hkk]; exact hmemU⟩
+        · right; exact ⟨h, by rw [← hkk]; exact hmemU⟩
+      · rcases hty with h | h <;> (rw [show ty = mds_PEG from t] at h; exact absurd h (by decide))
+      · rcases hty with h | h <;> (rw [show ty = mds_MTAB from t] at h; exact absurd h (by decide))
+    · -- a pitch envelope
+      have harg : arg = u16 (wrap16 (((getEnvelope c key).2 : Int) + 1)) := by
+        rcases hf with ⟨hp, _⟩ | ⟨_, ha⟩
+        · rcases hp with hp | hp <;> (rw [hty] at hp; exact absurd hp (by decide))
+        · exact ha
+      refine ⟨fun t => ?_, fun t => ?_, fun _ _ => ⟨htp, idx, (getEnvelope c key).2, hl, harg, by rw [← hkey]; exact hmemU⟩, fun t => ?_⟩
+      · exact absurd (show mds_PEG = mds_PAT from hty ▸ t) (by decide)
+      · rcases t with t | t
+        · exact absurd (show mds_PEG = mds_INS from hty ▸ t) (by decide)
+        · exact absurd (show mds_PEG = mds_PCM from hty ▸ t) (by decide)
+      · exact absurd (show mds_PEG = mds_MTAB from hty ▸ t) (by decide)
+  | mtab c' id w' pre ht hne hg hout hpre =>
+    obtain ⟨k, rfl, _, hmem, _, _⟩ := ih.mac c _ c' id (w.out :: L) P hinv hg
+    obtain ⟨ev, hev⟩ : ∃ ev : MEv, ev = ⟨mds_MTAB, u16 (wrap16 ((k : Int) + 1))⟩ := ⟨_, rfl⟩
+    refine ⟨pre ++ [ev], by rw [hout, List.append_assoc, hev], eventNames_append hpre ?_⟩
+    have h1 : ev.type = mds_MTAB := by rw [hev]
+    have h2 : ev.arg = u16 (wrap16 ((k : Int) + 1)) := by rw [hev]
+    refine ⟨fun t => ?_, fun t => ?_, fun t => ?_, fun _ _ => ⟨ht, k, h2, hmem⟩⟩
+    · rw [h1] at t; exact absurd t (by decide)
+    · rcases t with t | t <;> (rw [h1] at t; exact absurd t (by decide))
+    · rw [h1] at t; exact absurd t (by decide)
+
 /-! ### non-vacuity: a conversion state with one subroutine, one data item and one channel track
 assembles, and the container is produced -/
 def exConv : Conv := { subList := [[⟨mds_FINISH, 0⟩]], subMap := [(400, 0)], usedData := [(1, 0)] }
@@ -315,11 +522,21 @@ example : ∃ f, getMds ⟨{}, [], [], [], [], [0, 4, 0, 0]⟩ [] [] [] = .ok f 
   simp [getMds, usedSorted, addEntries, liftRiff, Riff.addChunk, Riff.mk3, Riff.mk2, Riff.isList, Riff.TYPE_RIFF,
     Riff.TYPE_LIST, bind, Except.bind, pure, Except.pure]
 
-/-- The full statement of the two remaining clauses (decided per case by `Spec/MdsResolve.checkFile`
-on the real file, not proved): for every successful export, the reader-side check — every
-INS/PCM/PEG/MTAB/PAT/drum-note operand of every reachable stream resolves to exactly one entry
-holding what the song named, no slot is unused, ids are injective, streams lie back to back —
-accepts the file. -/
+/-- the hypotheses of the `construct`-level theorems are satisfiable (a song whose only track is
+not a channel: the kernel does not unfold the mutually recursive writer, so songs with channel
+tracks are exercised by the correspondence runs — every accepted generated song is an instance) -/
+example : PlatformClean {} ∧ ∃ b, construct { tracks := [(100, [⟨ev_NOTE, 40, 2, 2⟩])] } {} (some "7") = .ok b :=
+  ⟨by intro k evs h; simp at h, _, rfl⟩
+
+example : ∃ ids : List Nat, ids.Pairwise (· < ·) ∧ ids = [0, 6, 100] := ⟨_, by decide, rfl⟩
+
+/-- The full statement, phrased with the reader-side check on the bytes of the file (decided per
+case by `Spec/MdsResolve.checkFile` on the REAL file).  What is proved instead: the same facts on
+the converter's event lists and the exported `seq ` / `dblk` (`C09_index_resolves`,
+`C09_data_resolves`, `C09_nothing_unused`, `C09_ids_injective`, `C09_track_table_exact`,
+`C09_slot_count`); not proved: that `checkFile`'s byte-level decoder (`decodeStream`, `namedOf`)
+reads exactly these operands back out of the `convertTrackChk` bytes (the codec's instruction
+boundaries, C03), and the drum-note / zero-length-note accounting of `namedOf`. -/
 def C09_full_statement : Prop :=
   ∀ (inp : Input) (o : Output), exportMds MdsData.Arith.float inp = .ok o →
     ∀ d, readSong MdsData.Arith.float inp.files inp.tags = .ok d →
